@@ -235,6 +235,7 @@ func (ti *tmplInfo) instantiateRaw(cfg tmplConfig) (string, []int, error) {
 		}
 		return nil, fmt.Errorf("template references .%s which the instantiator does not model", name)
 	}
+	var evalPipeRec func(p *parse.PipeNode, dot any) (any, error)
 	var evalArg func(a parse.Node, dot any) (any, error)
 	evalArg = func(a parse.Node, dot any) (any, error) {
 		switch x := a.(type) {
@@ -255,12 +256,23 @@ func (ti *tmplInfo) instantiateRaw(cfg tmplConfig) (string, []int, error) {
 			return nil, fmt.Errorf(".%s on a non-struct element", x.Ident[0])
 		case *parse.DotNode:
 			return dot, nil
+		case *parse.NumberNode:
+			if x.IsInt {
+				return int(x.Int64), nil
+			}
+			return x.Text, nil
+		case *parse.StringNode:
+			return x.Text, nil
+		case *parse.BoolNode:
+			return x.True, nil
 		case *parse.PipeNode:
+			if evalPipeRec != nil {
+				return evalPipeRec(x, dot)
+			}
 			return nil, fmt.Errorf("nested pipeline not modelled")
 		}
 		return nil, fmt.Errorf("argument %T not modelled", a)
 	}
-	var evalPipeRec func(p *parse.PipeNode, dot any) (any, error)
 	evalPipe := func(p *parse.PipeNode, dot any) (any, error) {
 		if len(p.Decl) > 0 || len(p.Cmds) != 1 {
 			return nil, fmt.Errorf("pipeline %s not modelled", p)
@@ -307,6 +319,16 @@ func (ti *tmplInfo) instantiateRaw(cfg tmplConfig) (string, []int, error) {
 					return nil, fmt.Errorf("not of non-bool")
 				}
 				return !b, nil
+			case "len":
+				switch x := arg.(type) {
+				case []any:
+					return len(x), nil
+				case string:
+					return len(x), nil
+				}
+				return nil, fmt.Errorf("len of %T", arg)
+			case "print", "html", "js", "urlquery":
+				return fmt.Sprint(arg), nil
 			case "formatImport":
 				s, _ := arg.(string)
 				imp, alias, with := strings.Cut(s, "=")
